@@ -770,7 +770,7 @@ def run_fresh(case):
 
 
 SUBS = {
-    'sched': Sub('sched', strat, run, quick=256, thorough=9600, quick_shards=16),
-    'bulk': Sub('bulk', strat_bulk, run_bulk, quick=160, thorough=4800, quick_shards=16),
+    'sched': Sub('sched', strat, run, quick=192, thorough=9600, quick_shards=16),
+    'bulk': Sub('bulk', strat_bulk, run_bulk, quick=128, thorough=4800, quick_shards=16),
     'fresh': Sub('fresh', strat_fresh, run_fresh, quick=4, thorough=16, quick_shards=2),
 }
